@@ -33,6 +33,14 @@ fn start_watchdog(limit_s: u64) {
             std::thread::sleep(std::time::Duration::from_secs(5));
             let now = driver::PROGRESS.load(Ordering::Relaxed);
             if now == last { idle += 5; } else { idle = 0; last = now; }
+            if idle >= 30 {
+                if let Some((id, path, sig, detail)) = driver::PENDING_VIOLATION.lock().unwrap().clone() {
+                    println!("VIOLATION property={id} replay={}", path.display());
+                    println!("  signature={sig}\n  {}", detail.chars().take(1500).collect::<String>());
+                    println!("  (reported by the watchdog: after this violation was observed other workers hung inside the library for 30 s; the case is not shrunk)");
+                    std::process::exit(1);
+                }
+            }
             if idle >= limit_s {
                 println!("INCONCLUSIVE: watchdog -- no case completed for {limit_s} s (hang inside a case); this is not a violation");
                 std::process::exit(if VIOLATION_PRINTED.load(Ordering::Relaxed) { 1 } else { 2 });
@@ -77,6 +85,7 @@ fn registry() -> Vec<PartEntry> {
         part!("C07", life::C07EndOne),
         part!("C07", rtchan::C07Multi),
         part!("C08", seq::C08Reserved),
+        part!("C08", life::C08Sched),
         part!("C09", log::C09Log),
         part!("C10", seq::C10Lifetimes),
         part!("C11", rt::C11Exec),
